@@ -274,7 +274,119 @@ class UnloadRun:
         self.info["desc"] = (name, c.get("cut"), c.get("cut_time"), c.get("lag", 0))
 
 
+def run_rc_window_case(ctx: Ctx | None, case: dict) -> None:
+    """
+    Part 3: what arrives WHILE an overlay is unloading. The overlays shut their request cache down first and stop
+    listening afterwards, so a handler may try to register a request while ``RequestCache.shutdown()`` is still waiting
+    for cancelled timeouts. Whatever it does with that request - refuse it or take it - nothing of it may be left when
+    the shutdown has completed: no pending task, no timeout firing later.
+    """
+    from ipv8.requestcache import NumberCache, RequestCache
+
+    def fail(clause, site, msg):
+        raise Violation(clause, site, msg, case)
+
+    async def main(loop):
+        rc = RequestCache()
+        fired: list = []
+
+        class Req(NumberCache):
+            def __init__(self, number, timeout):
+                super().__init__(rc, "pv", number)
+                self._t = timeout
+
+            @property
+            def timeout_delay(self):
+                return self._t
+
+            def on_timeout(self):
+                fired.append(self.number)
+        for i in range(case["pending"]):
+            rc.add(Req(i, 5.0 + i))
+        task = asyncio.ensure_future(rc.shutdown())
+        for _ in range(case["rc_window"]):
+            await asyncio.sleep(0)
+        late = Req(100, 1.0)
+        accepted = None
+        if not task.done():
+            accepted = rc.add(late)
+        await task
+        if not task.done():
+            raise HarnessError("shutdown did not complete")
+        after = rc.add(Req(101, 1.0))
+        if after is not None:
+            fail("U3", "request_cache:add_after_shutdown", "RequestCache.add accepted a request after shutdown() had completed")
+        await asyncio.sleep(30)
+        left = [str(n) for n, f in rc._pending_tasks.items() if not f.done()]  # noqa: SLF001
+        if fired:
+            fail("U3", "request_cache:timeout_after_shutdown",
+                 f"a request registered {case['rc_window']} loop iteration(s) into RequestCache.shutdown() "
+                 f"({'accepted' if accepted is not None else 'refused'}) had its timeout fire after the shutdown had completed: "
+                 f"{fired}")
+        if left or rc._identifiers:  # noqa: SLF001
+            fail("U3", "request_cache:left_after_shutdown", f"after shutdown() completed the request cache still holds "
+                                                            f"{sorted(rc._identifiers)} / pending tasks {left}")  # noqa: SLF001
+    vloop.run(main)
+    if ctx is not None:
+        ctx.case(case, case["rc_window"] > 0 and case["pending"] > 0, cls="rc_window")
+
+
+def run_tm_window_case(ctx: Ctx | None, case: dict) -> None:
+    """
+    The same for a bare TaskManager: a task registered while shutdown_task_manager() is still waiting for cancelled tasks
+    to finish is either refused or gone by the time the shutdown has completed.
+    """
+    from ipv8.taskmanager import TaskManager
+
+    def fail(clause, site, msg):
+        raise Violation(clause, site, msg, case)
+
+    async def main(loop):
+        tm = TaskManager()
+        ran: list = []
+
+        async def slow():
+            try:
+                await asyncio.sleep(100)
+            except asyncio.CancelledError:
+                await asyncio.sleep(0.25)      # clean-up after cancellation
+                raise
+        for i in range(case["pending"]):
+            tm.register_task("old%d" % i, slow)
+        await asyncio.sleep(0)
+        task = asyncio.ensure_future(tm.shutdown_task_manager())
+        if case["tm_window"] < 0:
+            await asyncio.sleep(0.1)           # in the middle of the clean-up of the cancelled tasks
+        for _ in range(max(0, case["tm_window"])):
+            await asyncio.sleep(0)
+
+        async def body():
+            await asyncio.sleep(case["delay"])
+            ran.append(loop.time())
+        fut = None
+        if not task.done():
+            fut = tm.register_task("late", body, **({"interval": 1.0} if case["delay"] == 0 else {}))
+        await task
+        t_done = loop.time()
+        await asyncio.sleep(30)
+        late_runs = [t for t in ran if t > t_done]
+        if late_runs:
+            fail("T3", "register_during_shutdown:runs_later",
+                 f"a task registered while shutdown_task_manager() was waiting ran {len(late_runs)} time(s) after the "
+                 f"shutdown had completed")
+        if fut is not None and not fut.done():
+            fail("T3", "register_during_shutdown:pending", "a task registered while shutdown_task_manager() was waiting is "
+                                                           "still pending long after the shutdown completed")
+    vloop.run(main)
+    if ctx is not None:
+        ctx.case(case, case["pending"] > 0, cls="tm_window")
+
+
 def run_case(ctx: Ctx | None, case: dict) -> None:
+    if "rc_window" in case:
+        return run_rc_window_case(ctx, case)
+    if "tm_window" in case:
+        return run_tm_window_case(ctx, case)
     if "ops" in case:
         return run_tm_case(ctx, case)
     r = UnloadRun(case)
@@ -460,6 +572,8 @@ def _cut_shard(ctx: Ctx, shard: int, nshards: int, per_scenario: int) -> None:
                      for lag in lags]
         else:
             jobs += [{"scenario": name, "cut": k} for k in ks]
+    jobs += [{"rc_window": k, "pending": m} for k in range(0, 7) for m in range(0, 4)]
+    jobs += [{"tm_window": k, "pending": m, "delay": d} for k in (-1, 0, 1, 2, 3) for m in (0, 1, 2) for d in (0, 0.5)]
     ctx.note("cut_jobs", len(jobs) if shard == 0 else 0)
     for i, case in enumerate(jobs):
         if i % nshards != shard:
